@@ -114,6 +114,24 @@ func outcomes(gen string) []outcome {
 		ee := e
 		out = append(out, outcome{name: "error-response{" + desc + "}", apply: func(r *Reply) *common.ErrorResponse { r.Err = ee; return ee }})
 	}
+	// an error response whose own status is a success code is still delivered as an error
+	for _, st := range []int32{200, 202} {
+		e, _ := newErrorResponse(1<<uint(len(errFields)) - 1)
+		st := st
+		e.Status = &st
+		ee := e
+		out = append(out, outcome{name: fmt.Sprintf("error-response-status-%d", st), apply: func(r *Reply) *common.ErrorResponse { r.Err = ee; return ee }})
+	}
+	// texts that look like format directives pass through verbatim
+	{
+		e, _ := newErrorResponse(1<<uint(len(errFields)) - 1)
+		msg := "95%d full %s 100%% %!v(x) %"
+		e.Message = &msg
+		ee := e
+		out = append(out, outcome{name: "error-response-percent-message", apply: func(r *Reply) *common.ErrorResponse { r.Err = ee; return ee }})
+	}
+	out = append(out, outcome{name: "plain-error-percent", apply: func(r *Reply) *common.ErrorResponse { r.Err = errors.New("95%d full %s 100%% %!v(x) %"); return nil }, failure: true, text: "95%d full %s 100%% %!v(x) %"})
+	out = append(out, outcome{name: "panic-percent", apply: func(r *Reply) *common.ErrorResponse { r.Panic = "boom %d %s %"; return nil }, failure: true, text: "boom %d %s %"})
 	out = append(out, outcome{name: "plain-error", apply: func(r *Reply) *common.ErrorResponse { r.Err = errors.New("boom-plain"); return nil }, failure: true, text: "boom-plain"})
 	out = append(out, outcome{name: "wrapped-error-response", apply: func(r *Reply) *common.ErrorResponse {
 		e, _ := newErrorResponse(3)
